@@ -7,6 +7,15 @@ fn main() {
         std::process::exit(2);
     }
     let id = args[1].clone();
+    if args.len() >= 4 && args[2] == "--child" {
+        // single-history child processes (state that cannot be undone in-process)
+        engine::install_quiet_panic_hook();
+        let rc = match id.as_str() {
+            "C17" => vh::props::c17::child_forget(&args[3]),
+            _ => 2,
+        };
+        std::process::exit(rc);
+    }
     let mut tier = match std::env::var("VERIF_TIER").ok().as_deref() {
         Some("thorough") => Tier::Thorough,
         _ => Tier::Quick,
